@@ -165,7 +165,10 @@ def first_diff(a, b):
 
 
 def run(ctx):
-    ok, lr, infos = F.lean_obligations(ctx, MODULES, [])
+    import sys as _sys, os as _os
+    _sys.path.insert(0, _os.path.join(C.VERIF, "extract"))
+    import x6_writecode
+    ok, lr, infos = F.lean_obligations(ctx, MODULES, [lambda: x6_writecode.main(C.REPO)])
     gdmodel = C.build_gdmodel()
     try:
         harness = C.build_harness("gdh", ["gdh.c"])
